@@ -277,6 +277,7 @@ SWEEP = ["test_executor.cpp"]
 
 # name anchors (validated by tools/rename_sweep.py; a vanished name is exit 2, see core.check_anchor_names)
 ANCHORS = {
+    '_balance_thread': ['^babylon::ThreadPoolExecutor(<|$)'],
     'enqueue_task': ['^babylon::ThreadPoolExecutor(<|$)'],
     'keep_execute': ['^babylon::ThreadPoolExecutor(<|$)'],
     'local': ['^babylon::EnumerableThreadLocal(<|$)'],
